@@ -1,0 +1,16 @@
+//go:build verif
+
+// Contracts for the deductive verifier in /verif (comment-only file).
+// Property C17: reads through the read-caching composite consult the FAST
+// backend first (the slow one only through the replicator the selector hands
+// out).
+package readcaching
+
+//@ func (*readCachingBlobAccess).Get
+//@   requires ba.fast != nil
+//@   ensures result != nil
+//@   ensures [fast-backend-first] baGets(ba.fast) == old(baGets(ba.fast)) + 1 && baDigest(ba.fast) == digest.value
+//@ func (*readCachingBlobAccess).GetFromComposite
+//@   requires ba.fast != nil
+//@   ensures result != nil
+//@   ensures [fast-backend-first] baCalls(ba.fast) == old(baCalls(ba.fast)) + 1 && baDigest(ba.fast) == parentDigest.value
